@@ -219,6 +219,9 @@ func (e *Enc) addMapKeys(fp *footprint, mt types.Type, m string) {
 	}
 }
 
+// currentProperty: the property being checked (set by the check command); scopes `axiom[Cxx] ...`.
+var currentProperty string
+
 // verifyFunction encodes fn against its contract and returns the obligations.
 func verifyFunction(P *Program, db *SpecDB, ti *TypeInfo, fn *ssa.Function, c *Contract, entryExprs map[string]string) *FuncResult {
 	e := newEnc(P, db, ti)
@@ -238,11 +241,29 @@ func verifyFunction(P *Program, db *SpecDB, ti *TypeInfo, fn *ssa.Function, c *C
 		fr.vals[p] = v
 		fr.args = append(fr.args, v)
 	}
-	if len(fn.FreeVars) > 0 {
-		e.unsupportedf("function under contract has free variables")
+	// a closure under contract: each captured variable is a distinct, allocated cell with an arbitrary content
+	var fvRefs []string
+	for _, fv := range fn.FreeVars {
+		if !isPointer(fv.Type()) {
+			e.unsupportedf("closure under contract captures %s by value (unexpected SSA form)", fv.Name())
+			continue
+		}
+		v := e.freshVal(st, "fv!"+fv.Name(), fv.Type())
+		fr.vals[fv] = v
+		e.assert("(> " + v.L[0].T + " 0)")
+		for _, o := range fvRefs {
+			e.assert(not(eq(o, v.L[0].T)))
+		}
+		fvRefs = append(fvRefs, v.L[0].T)
 	}
 	// axioms
 	for _, ax := range db.Axioms {
+		if ax.PkgPath != "" && P.lookupPkg(ax.PkgPath) == nil {
+			continue // an axiom of a package that is not part of this load (like the contracts of that package)
+		}
+		if len(ax.Props) > 0 && currentProperty != "" && !ax.Props[currentProperty] {
+			continue // a theory axiom scoped to other properties
+		}
 		env := &Env{e: e, vars: map[string]*Val{}, st: st, old: st, pkgPath: ax.PkgPath, imports: ax.Imports}
 		t, err := env.evalBool(ax.E)
 		if err != nil {
@@ -451,6 +472,9 @@ func (e *Enc) frameObligations(written map[string]bool, entry *State, final *Sta
 	for _, k := range keys {
 		if strings.HasPrefix(k, "RV|") || (fp.whole[k] && fp.wholeCond[k] == "") {
 			continue
+		}
+		if strings.HasPrefix(k, "G|") && e.DB.Allocators[k[2:]] {
+			continue // allocator ghost variables are outside frame clauses (they only grow)
 		}
 		srt, ok := e.heapSort[k]
 		if !ok {
